@@ -22,7 +22,7 @@ CONSTANTS
   MaxGen = 1
   MaxDup = 0
   Engine = "engine"
-  GateUsage = FALSE
+  GateUsage = TRUE
 INIT Init
 NEXT Next
 VIEW View
